@@ -51,8 +51,24 @@ func (c *Criteria) Spec_Validate() {
 }
 
 func (c *Criteria) Spec_NotUsedName(name string) string {
+	// C18: an id not used before - the counted candidate is only a starting point (ids may have been omitted, or the
+	// user may own an id of the same shape)
 	count := c.Spec_countWithPrefix(name)
-	return Spec_firstFreeName(name, count)
+	candidate := Spec_firstFreeName(name, count)
+	for c.Spec_isUsed(candidate) {
+		count++
+		candidate = Spec_firstFreeName(name, count)
+	}
+	return candidate
+}
+
+func (c *Criteria) Spec_isUsed(id string) bool {
+	for _, existing := range *c {
+		if existing.Id == id {
+			return true
+		}
+	}
+	return false
 }
 
 func Spec_firstFreeName(name string, count int) string {
@@ -130,7 +146,10 @@ func (c *Criteria) Spec_Add(criterion *Criterion) Criteria {
 			panic(fmt.Errorf("cannot add criterion '%v' - already exists in criteria: %v", *criterion, *c))
 		}
 	}
-	return append(*c, *criterion)
+	// C09: the result is a fresh list; the receiver may be the caller's slice with spare capacity other holders share
+	extended := make(Criteria, len(*c), len(*c)+1)
+	copy(extended, *c)
+	return append(extended, *criterion)
 }
 
 func (w *WeightedCriteria) Spec_Criteria() *Criteria {
